@@ -77,3 +77,10 @@ Proof.
   eexists. split; [vm_compute; reflexivity|]. split; [reflexivity|].
   eexists. split; [vm_compute; reflexivity|]. repeat split; reflexivity.
 Qed.
+
+(* a negative capacity (Go int) is accepted: the LRU falls back to its default size, so the cache
+   interface never holds a nil *lruCache and housekeeping is safe *)
+Example negative_capacity :
+  exists m, start (Decoded (mkRaw (Valid 1) Negative (Valid 2) Negative (Valid 2) Unset None None None None Unset Unset false)) (SubOk [1]) = Ok m /\
+            m_tester m = TCached (Some KLru) (Some KLru) /\ housekeeping m = Ok tt.
+Proof. eexists. vm_compute. repeat split; reflexivity. Qed.
